@@ -56,6 +56,9 @@ class wrap:
         except Exception:
             r = {"name": task[1], "status": "error", "error": traceback.format_exc()}
         r["dump"] = task[0]
+        import solve
+        r["cross"] = list(solve.CROSS)
+        del solve.CROSS[:]
         return r
 
 
